@@ -1,25 +1,275 @@
 #!/usr/bin/env python3
-"""Translator for finite tables: /repo/src -> lean/Adb/Generated/Tables.lean (section 2.5 of DESIGN.md).
-Rewrites the output only when its content changes, so Lake rebuilds only when the code's tables changed."""
-import os, re, sys
+"""
+Translator for finite tables: /repo/src -> lean/Adb/Generated/Tables.lean (DESIGN.md section 2.5).
+
+Parses, with anchored regular expressions that fail loudly, exactly the Rust items listed below and
+emits them as Lean literals. The Lean model imports these tables instead of restating them, so the
+`decide`-style theorems over them are re-proved against the source as it is now.
+The output is only rewritten when its content changes (so Lake rebuilds only when the tables changed).
+"""
+import os
+import re
+import sys
+
 ROOT = os.path.dirname(os.path.dirname(os.path.abspath(__file__)))
 OUT = os.path.join(ROOT, "lean", "Adb", "Generated", "Tables.lean")
-SRC = "/repo/src"
+SRC = os.environ.get("VERIF_REPO_SRC", "/repo/src")
+
 
 def fail(msg):
-    print("extract_tables: " + msg)
+    print("extract_tables: FAILED: " + msg)
     sys.exit(1)
 
+
+def read(rel):
+    p = os.path.join(SRC, rel)
+    if not os.path.exists(p):
+        fail(f"missing source file {p}")
+    return open(p, encoding="utf-8").read()
+
+
+def lean_str(s):
+    return '"' + s.replace("\\", "\\\\").replace('"', '\\"') + '"'
+
+
+def mask_bits(net):
+    m = re.search(r"pub struct NetworkFilterMask: u32 \{(.*?)\n    \}\n\}", net, re.S)
+    if not m:
+        fail("NetworkFilterMask bitflags block not found")
+    body = m.group(1)
+    bits = {}
+    for name, rhs in re.findall(r"const (\w+) = ([^;]+);", body):
+        rhs = rhs.strip()
+        if rhs == "1":
+            bits[name] = 0
+        elif re.fullmatch(r"1 << (\d+)", rhs):
+            bits[name] = int(rhs.split("<<")[1])
+        elif rhs == "0":
+            pass  # NONE
+        elif "Self::" in rhs:
+            pass  # composite, handled below
+        else:
+            fail(f"unrecognised mask constant {name} = {rhs}")
+    comps = {}
+    for name, rhs in re.findall(r"const (\w+) = ((?:Self::\w+\.bits\(\)\s*\|?\s*)+);", body):
+        comps[name] = re.findall(r"Self::(\w+)\.bits\(\)", rhs)
+    for need in ["FROM_NETWORK_TYPES", "FROM_ALL_TYPES", "DEFAULT_OPTIONS"]:
+        if need not in comps:
+            fail(f"composite mask {need} not found")
+    if len(set(bits.values())) != len(bits):
+        fail("two mask flags share a bit")
+    return bits, comps
+
+
+def req_type_map(net):
+    m = re.search(r"impl From<&request::RequestType> for NetworkFilterMask \{(.*?)\n\}\n", net, re.S)
+    if not m:
+        fail("From<&RequestType> for NetworkFilterMask not found")
+    pairs = re.findall(r"request::RequestType::(\w+) => NetworkFilterMask::(\w+),", m.group(1))
+    if len(pairs) < 10:
+        fail("request type map too short")
+    return pairs
+
+
+def cpt_match(req):
+    m = re.search(r"fn cpt_match_type\(cpt: &str\) -> RequestType \{\s*match cpt \{(.*?)\n    \}\n\}", req, re.S)
+    if not m:
+        fail("cpt_match_type not found")
+    out = []
+    default = None
+    for lhs, rhs in re.findall(r"((?:\"[^\"]*\"\s*\|?\s*)+|_)\s*=> RequestType::(\w+),", m.group(1)):
+        if lhs.strip() == "_":
+            default = rhs
+        else:
+            for s in re.findall(r"\"([^\"]*)\"", lhs):
+                out.append((s, rhs))
+    if default is None:
+        fail("cpt_match_type default arm not found")
+    return out, default
+
+
+def req_types(req):
+    m = re.search(r"pub enum RequestType \{(.*?)\}", req, re.S)
+    if not m:
+        fail("enum RequestType not found")
+    return re.findall(r"(\w+),", m.group(1))
+
+
+def escaped_table(rs):
+    m = re.search(r"static ESCAPED: \[u8; 256\] = \[(.*?)\];", rs, re.S)
+    if not m:
+        fail("ESCAPED table not found")
+    consts = dict(re.findall(r"const (\w+): u8 = ([^;]+);", rs))
+
+    def val(tok):
+        v = consts.get(tok)
+        if v is None:
+            fail(f"unknown ESCAPED entry {tok}")
+        v = v.strip()
+        if v == "0":
+            return 0
+        mm = re.fullmatch(r"b'(\\?.)'", v)
+        if not mm:
+            fail(f"cannot evaluate const {tok} = {v}")
+        c = mm.group(1)
+        return ord({"\\\\": "\\", "\\'": "'"}.get(c, c[-1]) if c.startswith("\\") else c)
+
+    body = re.sub(r"//[^\n]*", "", m.group(1))
+    toks = re.findall(r"\w+", body)
+    if len(toks) != 256:
+        fail(f"ESCAPED table has {len(toks)} entries")
+    return [val(t) for t in toks]
+
+
+def bad_tokens(nfl):
+    m = re.search(r"for bad_token in \[(.*?)\]\.iter\(\)", nfl)
+    if not m:
+        fail("bad token list not found")
+    return re.findall(r"\"([^\"]*)\"", m.group(1))
+
+
+def token_consts(utils):
+    a = re.search(r"const TOKENS_BUFFER_SIZE: usize = (\d+);", utils)
+    b = re.search(r"const TOKENS_BUFFER_RESERVED: usize = (\d+);", utils)
+    c = re.search(r"const TOKENS_MAX: usize = TOKENS_BUFFER_SIZE - TOKENS_BUFFER_RESERVED;", utils)
+    if not (a and b and c):
+        fail("token buffer constants not found")
+    return int(a.group(1)) - int(b.group(1))
+
+
+def option_table(absn):
+    """(option name, negated?) arms of parse_filter_options -> constructor / error"""
+    m = re.search(r"result\.push\(match \(option, negation\) \{(.*?)\n        \}\);", absn, re.S)
+    if not m:
+        fail("parse_filter_options match not found")
+    body = m.group(1)
+    arms = []
+    # split on top-level arms: patterns start at 12 spaces of indentation with ("
+    for pm in re.finditer(r"\n            ((?:\(\"[\w-]+\", \w+\)\s*\|?\s*)+)=>\s*(.*?)(?=\n            \(|\Z)", body, re.S):
+        pats = re.findall(r"\(\"([\w-]+)\", (\w+)\)", pm.group(1))
+        rhs = pm.group(2)
+        em = re.search(r"return Err\(NetworkFilterError::(\w+)\)", rhs) if rhs.lstrip().startswith("return") or rhs.lstrip().startswith("{\n                return") else None
+        cm = re.search(r"NetworkFilterOption::(\w+)(\((!?)negated\))?", rhs)
+        for name, neg in pats:
+            if em and not (cm and cm.start() < em.start()):
+                arms.append((name, neg, "err", em.group(1), ""))
+            elif cm:
+                arms.append((name, neg, "ok", cm.group(1), "neg" if cm.group(2) else ""))
+            else:
+                fail(f"cannot classify option arm {name}")
+    if len(arms) < 40:
+        fail(f"option table too short ({len(arms)})")
+    return arms
+
+
+def mime_tables(resmod):
+    m = re.search(r"impl From<&MimeType> for &str \{(.*?)\n\}\n", resmod, re.S)
+    if not m:
+        fail("MimeType -> str map not found")
+    to_str = re.findall(r"MimeType::(\w+) => \"([^\"]*)\",", m.group(1))
+    m2 = re.search(r"pub fn supports_redirect\(&self\) -> bool \{\s*!matches!\(\s*self,\s*(.*?)\)\s*\}", resmod, re.S)
+    if not m2:
+        fail("supports_redirect not found")
+    no_redirect = re.findall(r"ResourceType::(Template|Mime\(MimeType::\w+\))", m2.group(1))
+    m3 = re.search(r"pub fn supports_scriptlet_injection\(&self\) -> bool \{\s*matches!\(\s*self,\s*(.*?)\)\s*\}", resmod, re.S)
+    if not m3:
+        fail("supports_scriptlet_injection not found")
+    inj = re.findall(r"ResourceType::(Template|Mime\(MimeType::\w+\))", m3.group(1))
+    return to_str, no_redirect, inj
+
+
+def serialize_fields():
+    """HashMap/HashSet fields of Serialize structs in data_format/v0.rs and network_filter_list.rs with their serialize_with"""
+    out = []
+    for rel in ["data_format/v0.rs", "network_filter_list.rs"]:
+        src = read(rel)
+        for sm in re.finditer(r"#\[derive\(([^\]]*)\)\]\s*(?:#\[[^\]]*\]\s*)*pub\(crate\) struct (\w+)(?:<[^>]*>)? \{(.*?)\n\}", src, re.S):
+            derives, name, body = sm.group(1), sm.group(2), sm.group(3)
+            if "Serialize" not in derives.replace("Deserialize", ""):
+                continue
+            # fields with preceding attributes
+            for fm in re.finditer(r"((?:\s*#\[[^\]]*\]\s*\n)*)\s*(?:pub(?:\(crate\))? )?(\w+): ([^\n]+),", body):
+                attrs, fname, fty = fm.group(1), fm.group(2), fm.group(3)
+                if re.search(r"\bHash(Map|Set)<", fty):
+                    sw = re.search(r"serialize_with = \"([^\"]+)\"", attrs)
+                    out.append((rel, name, fname, sw.group(1) if sw else ""))
+    return out
+
+
 def main():
-    parts = ["-- GENERATED by tools/extract_tables.py from /repo/src on every run. Do not edit.", "namespace Adb.Gen", ""]
-    parts.append("end Adb.Gen")
-    text = "\n".join(parts) + "\n"
+    net = read("filters/network.rs")
+    req = read("request.rs")
+    rs = read("resources/resource_storage.rs")
+    resmod = read("resources/mod.rs")
+    nfl = read("network_filter_list.rs")
+    utils = read("utils.rs")
+    absn = read("filters/abstract_network.rs")
+
+    bits, comps = mask_bits(net)
+    rtm = req_type_map(net)
+    cpt, cpt_default = cpt_match(req)
+    rtypes = req_types(req)
+    esc = escaped_table(rs)
+    bad = bad_tokens(nfl)
+    tmax = token_consts(utils)
+    opts = option_table(absn)
+    mimes, no_redirect, inj = mime_tables(resmod)
+    ser = serialize_fields()
+
+    L = ["-- GENERATED by tools/extract_tables.py from /repo/src on every run. Do not edit.",
+         "namespace Adb.Gen", ""]
+    L.append("/-- bit index of every single-bit `NetworkFilterMask` flag -/")
+    for name, b in sorted(bits.items(), key=lambda kv: kv[1]):
+        L.append(f"def {name} : Nat := {b}")
+    L.append("")
+    L.append("def maskFlags : List (String × Nat) := [" + ", ".join(f"({lean_str(n)}, {b})" for n, b in sorted(bits.items(), key=lambda kv: kv[1])) + "]")
+    for cname, members in comps.items():
+        # expand nested composites
+        def expand(ms):
+            out = []
+            for x in ms:
+                if x in comps:
+                    out += expand(comps[x])
+                else:
+                    out.append(x)
+            return out
+        L.append(f"def {cname} : List Nat := [" + ", ".join(expand(members)) + "]")
+    L.append("")
+    L.append("/-- `enum RequestType` in declaration order -/")
+    L.append("def requestTypes : List String := [" + ", ".join(lean_str(t) for t in rtypes) + "]")
+    L.append("/-- `impl From<&RequestType> for NetworkFilterMask` -/")
+    L.append("def requestTypeBit : List (String × Nat) := [" + ", ".join(f"({lean_str(t)}, {f})" for t, f in rtm) + "]")
+    L.append("/-- `cpt_match_type` -/")
+    L.append("def cptMatch : List (String × String) := [" + ", ".join(f"({lean_str(a)}, {lean_str(b)})" for a, b in cpt) + "]")
+    L.append(f"def cptDefault : String := {lean_str(cpt_default)}")
+    L.append("")
+    L.append("def badTokens : List String := [" + ", ".join(lean_str(t) for t in bad) + "]")
+    L.append(f"def TOKENS_MAX : Nat := {tmax}")
+    L.append("")
+    L.append("/-- the 256-entry `ESCAPED` table of `stringify_arg` -/")
+    L.append("def ESCAPED : List Nat := [" + ", ".join(str(v) for v in esc) + "]")
+    L.append("")
+    L.append("/-- arms of `parse_filter_options`: (option name, pattern on negation, ok/err, constructor or error, `neg` if the payload is `!negated`) -/")
+    L.append("def optionArms : List (String × String × String × String × String) := [" + ", ".join(
+        f"({lean_str(a)}, {lean_str(b)}, {lean_str(c)}, {lean_str(d)}, {lean_str(e)})" for a, b, c, d, e in opts) + "]")
+    L.append("")
+    L.append("def mimeStrings : List (String × String) := [" + ", ".join(f"({lean_str(a)}, {lean_str(b)})" for a, b in mimes) + "]")
+    L.append("def noRedirectKinds : List String := [" + ", ".join(lean_str(x) for x in no_redirect) + "]")
+    L.append("def injectableKinds : List String := [" + ", ".join(lean_str(x) for x in inj) + "]")
+    L.append("")
+    L.append("/-- every HashMap/HashSet field of a `Serialize` struct of the wire format with its `serialize_with` -/")
+    L.append("def hashContainerFields : List (String × String × String × String) := [" + ", ".join(
+        f"({lean_str(a)}, {lean_str(b)}, {lean_str(c)}, {lean_str(d)})" for a, b, c, d in ser) + "]")
+    L.append("")
+    L.append("end Adb.Gen")
+    text = "\n".join(L) + "\n"
     os.makedirs(os.path.dirname(OUT), exist_ok=True)
     if not os.path.exists(OUT) or open(OUT).read() != text:
         open(OUT, "w").write(text)
         print("extract_tables: wrote", OUT)
     else:
         print("extract_tables: unchanged")
+
 
 if __name__ == "__main__":
     main()
